@@ -135,7 +135,8 @@ def forall_cells(grid, fn):
     return all(fn(p) for p in grid.area.positions())
 
 
-def exists_cells(grid, fn):
+def exists_cells(grid, fn, hints=None):
+    # `hints` are witness candidates for the symbolic prover only
     return any(fn(p) for p in grid.area.positions())
 
 
@@ -249,3 +250,15 @@ def stub_assume(name, fn):
 def symbolic():
     """True only under the symbolic verifier (for clauses about ghost traces the native run cannot observe)"""
     return False
+
+
+def draw_value(rng, k):
+    return rng.values[k]
+
+
+def effects(kind):
+    """natively only the hash-order effect is observable: the target is re-run in fresh interpreters
+    with different PYTHONHASHSEED values and the results compared"""
+    if kind == 'set_order':
+        return ST.hashseed_hook()
+    return 0
